@@ -131,24 +131,29 @@ Print Assumptions C10_blocking_ops_hold_no_lock.
 (* the link: the flag `fixed` of the LTS instantiated with the conjunction of these obligations computed on the
    source (ChanFacts.source_fixed) - the protocol the source follows terminates and releases the lock; with the
    flag false it is the protocol of C10_get_wedges_tree_refuted *)
-Theorem C10_source_follows_fixed_protocol : ChanFacts.get_protocol_of ChanTable.chan_table = true.
+Theorem C10_source_fixed_is_computed_from_table :
+  ChanFacts.source_fixed = ChanFacts.get_protocol_of ChanTable.chan_table.
+Proof. unfold ChanFacts.source_fixed. reflexivity. Qed.
+Print Assumptions C10_source_fixed_is_computed_from_table.
+
+Theorem C10_source_follows_fixed_protocol : ChanFacts.source_fixed = true.
 Proof. exact ChanFacts.source_is_fixed_protocol. Qed.
 Print Assumptions C10_source_follows_fixed_protocol.
 
 Theorem C10_source_producer_can_stop n k s i :
   pp s = P1 i -> (i < n)%nat -> stop s = true ->
-  step n k (ChanFacts.get_protocol_of ChanTable.chan_table) s {| pp := P3; hp := hp s; stop := stop s; lock := lock s |}.
+  step n k ChanFacts.source_fixed s {| pp := P3; hp := hp s; stop := stop s; lock := lock s |}.
 Proof. exact (ChanFacts.source_producer_can_stop n k s i). Qed.
 Print Assumptions C10_source_producer_can_stop.
 
 Theorem C10_get_of_source_terminates n k s :
-  Inv n (ChanFacts.get_protocol_of ChanTable.chan_table) s ->
-  Acc (fun b a => Inv n (ChanFacts.get_protocol_of ChanTable.chan_table) a /\ step n k (ChanFacts.get_protocol_of ChanTable.chan_table) a b) s.
+  Inv n ChanFacts.source_fixed s ->
+  Acc (fun b a => Inv n ChanFacts.source_fixed a /\ step n k ChanFacts.source_fixed a b) s.
 Proof. exact (ChanFacts.source_get_terminates n k s). Qed.
 Print Assumptions C10_get_of_source_terminates.
 
 Theorem C10_get_of_source_releases_lock n k s :
-  Inv n (ChanFacts.get_protocol_of ChanTable.chan_table) s ->
-  (forall s', ~ step n k (ChanFacts.get_protocol_of ChanTable.chan_table) s s') -> final s.
+  Inv n ChanFacts.source_fixed s ->
+  (forall s', ~ step n k ChanFacts.source_fixed s s') -> final s.
 Proof. exact (ChanFacts.source_get_releases_lock n k s). Qed.
 Print Assumptions C10_get_of_source_releases_lock.
